@@ -71,7 +71,7 @@ def histories(draw):
         st.tuples(st.integers(0, nstreams - 1),
                   st.floats(0, max(horizon, 0.001), allow_nan=False)),
         max_size=2))
-    tick = draw(st.sampled_from([0.0, 0.0, 1e-6, 1e-4]))
+    tick = draw(st.sampled_from([0.0, 1e-6, 1e-6, 1e-4]))
     return {'kind': 'des', 'max_bw': max_bw, 'threshold': threshold,
             'tick': tick,
             'streams': streams, 'late': late,
